@@ -16,4 +16,5 @@ CONF = dict(
  'theorems hold for every sorted permutation the unstable sort may produce. Model tied to the Go functions by running both on adversarially placed inputs; the '
  "containment/permutation/sortedness oracle is evaluated on the implementation's outputs"),
     level_note='Trusted: Coq kernel, model validated by the correspondence run, extraction, harness; slices.Sort by contract (checked on every observed output). No axioms.',
+    min_cases={'ftm.dur': 450, 'ftm.meas': 450, 'ftm.midpoint': 450, 'ftm.perm': 418, 'ftm.sgninv': 450, 'median.dur': 450, 'median.meas': 450},
 )
